@@ -1,4 +1,729 @@
-//! C09 — not built yet.
+//! C09 — type inference is sound for evaluation; well-typed programs never crash.
+//!
+//! (a) `infer` correspondence: every `add_node` attempt (accepted and rejected) of generated
+//!     programs, plus a malformed stream obtained by perturbing one parameter / argument type of
+//!     accepted attempts, is replayed as `infer <op> [<dependency types>]` (Graph/Typing.v) against
+//!     the Rust outcome `Ok(type)` / `Err` / `Panic` of `Graph::add_node`.
+//! (b) soundness monitor (native oracle, the property itself): generated programs are evaluated
+//!     node by node on random inputs of the declared types; every node value must satisfy
+//!     `Value::check_type(node.get_type()) == Ok(true)` and no `evaluate_node` call may panic.
+//! (c) `T:has_type_node_value`: the model's `has_type` on the decoded value of sampled nodes.
+use crate::coqfmt::*;
+use crate::export::*;
+use crate::gen::*;
 use crate::out::Out;
-pub const HEADER: &str = "From CC Require Import Base.Prelude.";
-pub fn run(_tier: &str, _seed: u64, _out: &mut Out) {}
+use crate::progen::*;
+use crate::rng::Rng;
+use ciphercore_base::data_types::*;
+use ciphercore_base::data_values::Value;
+use ciphercore_base::graphs::*;
+use serde_json::json;
+use std::collections::HashSet;
+
+pub const HEADER: &str = "From CC Require Import Base.Prelude Base.Scalar Base.Ty Base.Shape Graph.Value Graph.IR Graph.Eval Graph.Typing.";
+
+// ------------------------------------------------------------------------------- attempts
+#[derive(Clone)]
+struct Att {
+    a: Attempt,
+    /// for a Constant whose declared type was perturbed: the type the value really has
+    const_ty: Option<Type>,
+    origin: &'static str,
+}
+
+fn op_str(op: &Operation, const_ty: &Option<Type>) -> String {
+    match (op, const_ty) {
+        (Operation::Constant(t, v), Some(tt)) => format!("(OConstant {} {})", ty(t), value_coq(v, tt)),
+        _ => op_coq(op),
+    }
+}
+
+/// Runs `add_node(op)` on fresh Input nodes of the given (valid) types, in a fresh context.
+fn attempt(op: &Operation, dep_types: &[Type]) -> Option<Attempt> {
+    let ctx = create_context().ok()?;
+    let g = ctx.create_graph().ok()?;
+    let mut deps = vec![];
+    for t in dep_types {
+        let t2 = t.clone();
+        let g2 = g.clone();
+        match observe(move || g2.input(t2)) {
+            Outcome::Ok(n) => deps.push(n),
+            _ => return None,
+        }
+    }
+    let g2 = g.clone();
+    let op2 = op.clone();
+    let r = observe(move || g2.add_node(deps, vec![], op2));
+    let result = match &r {
+        Outcome::Ok(n) => Outcome::Ok(n.get_type().unwrap()),
+        Outcome::Err => Outcome::Err,
+        Outcome::Panic => Outcome::Panic,
+    };
+    Some(Attempt { op: op.clone(), dep_types: dep_types.to_vec(), result })
+}
+
+struct Emitter {
+    seen: HashSet<String>,
+    accepted: Vec<Attempt>,
+}
+impl Emitter {
+    fn emit(&mut self, out: &mut Out, att: &Att) {
+        let a = &att.a;
+        let lhs = format!("infer {} {}", op_str(&a.op, &att.const_ty), list(&a.dep_types, |t| ty(t)));
+        if !self.seen.insert(lhs.clone()) {
+            out.stat("infer_duplicate_skipped");
+            return;
+        }
+        let rhs = res(&a.result, |t| ty(t));
+        let name = op_name(&a.op);
+        out.stat(&format!("infer:{}:{}", name, a.result.tag()));
+        out.stat(&format!("infer_outcome:{}", a.result.tag()));
+        out.stat(&format!("infer_origin:{}:{}", att.origin, a.result.tag()));
+        for t in a.dep_types.iter() {
+            if t.is_array() {
+                out.stat(&format!("dep_rank:{}", t.get_shape().len()));
+            }
+            if t.is_array() || t.is_scalar() {
+                out.stat(&format!("dep_st:{}", scalar(t.get_scalar_type())));
+            }
+        }
+        let nontrivial = !a.dep_types.is_empty() || a.result.tag() != "Ok";
+        out.case(
+            &format!("infer_{}", att.origin),
+            lhs,
+            rhs,
+            json!({"op": format!("{:?}", a.op).chars().take(300).collect::<String>(), "dep_types": a.dep_types.iter().map(|t| format!("{}", t)).collect::<Vec<_>>(), "rust": a.result.tag()}),
+            nontrivial,
+        );
+        if a.result.tag() == "Panic" {
+            // a panic at node-addition time is not a rejection
+            out.violation(
+                &format!("add-node-panics:{}", name),
+                json!({"op": format!("{:?}", a.op).chars().take(300).collect::<String>(), "dep_types": a.dep_types.iter().map(|t| format!("{}", t)).collect::<Vec<_>>()}),
+                "Graph::add_node panicked instead of returning Ok or Err".into(),
+            );
+        } else {
+            out.oracle_ok();
+        }
+        if a.result.tag() == "Ok" && att.const_ty.is_none() {
+            self.accepted.push(a.clone());
+        }
+    }
+}
+
+// ------------------------------------------------------------------------------- program builder
+struct Pb {
+    p: Prog,
+    pool: Vec<Node>,
+}
+impl Pb {
+    fn new() -> Pb {
+        let ctx = create_context().unwrap();
+        let g = ctx.create_graph().unwrap();
+        Pb { p: Prog { ctx, g, input_types: vec![], attempts: vec![] }, pool: vec![] }
+    }
+    fn input(&mut self, t: Type) -> Node {
+        let n = self.p.g.input(t.clone()).unwrap();
+        self.p.input_types.push(t.clone());
+        self.p.attempts.push(Attempt { op: Operation::Input(t.clone()), dep_types: vec![], result: Outcome::Ok(t) });
+        self.pool.push(n.clone());
+        n
+    }
+    fn add(&mut self, deps: Vec<Node>, op: Operation) -> Option<Node> {
+        let dep_types: Vec<Type> = deps.iter().map(|d| d.get_type().unwrap()).collect();
+        let g = self.p.g.clone();
+        let op2 = op.clone();
+        let r = observe(move || g.add_node(deps, vec![], op2));
+        let result = match &r {
+            Outcome::Ok(n) => Outcome::Ok(n.get_type().unwrap()),
+            Outcome::Err => Outcome::Err,
+            Outcome::Panic => Outcome::Panic,
+        };
+        self.p.attempts.push(Attempt { op, dep_types, result });
+        if let Outcome::Ok(n) = r {
+            self.pool.push(n.clone());
+            Some(n)
+        } else {
+            None
+        }
+    }
+    fn constant(&mut self, t: Type, rng: &mut Rng) -> Node {
+        let v = gen_value(&t, rng);
+        self.add(vec![], Operation::Constant(t, v)).unwrap()
+    }
+    fn finish(self, rng: &mut Rng) -> Prog {
+        let k = std::cmp::min(self.pool.len(), 1 + rng.below(4) as usize);
+        let outs: Vec<Node> = self.pool.iter().rev().take(k).cloned().collect();
+        let o = self.p.g.create_tuple(outs).unwrap();
+        self.p.g.set_output_node(o).unwrap();
+        self.p.g.finalize().unwrap();
+        self.p.ctx.set_main_graph(self.p.g.clone()).unwrap();
+        self.p.ctx.finalize().unwrap();
+        self.p
+    }
+}
+
+// ------------------------------------------------------------------------------- directed generators
+fn dim(rng: &mut Rng) -> u64 {
+    *rng.pick(&[1u64, 1, 2, 2, 3, 4])
+}
+/// two batch prefixes (rank 0..2 each) that broadcast against each other, with size-1 dims
+fn batches(rng: &mut Rng) -> (Vec<u64>, Vec<u64>) {
+    let r = rng.below(3) as usize;
+    let common: Vec<u64> = (0..r).map(|_| dim(rng)).collect();
+    let side = |rng: &mut Rng| -> Vec<u64> {
+        let keep = rng.below(r as u64 + 1) as usize;
+        common[r - keep..].iter().map(|d| if rng.chance(1, 3) { 1 } else { *d }).collect()
+    };
+    (side(rng), side(rng))
+}
+fn arr_or_scalar(sh: &[u64], st: ScalarType) -> Type {
+    if sh.is_empty() { scalar_type(st) } else { array_type(sh.to_vec(), st) }
+}
+/// a shape that broadcasts against `common` (suffix, some dims replaced by 1); empty = scalar
+fn bshape(common: &[u64], rng: &mut Rng) -> Vec<u64> {
+    let keep = rng.below(common.len() as u64 + 1) as usize;
+    common[common.len() - keep..].iter().map(|d| if rng.chance(1, 3) { 1 } else { *d }).collect()
+}
+fn rand_shape(rng: &mut Rng, max_rank: u64) -> Vec<u64> {
+    let r = 1 + rng.below(max_rank) as usize;
+    (0..r).map(|_| dim(rng)).collect()
+}
+
+fn dir_linear(rng: &mut Rng) -> Prog {
+    let mut b = Pb::new();
+    let st = *rng.pick(&ALL_ST);
+    let (n, k, m) = (dim(rng), dim(rng), dim(rng));
+    match rng.below(3) {
+        0 => {
+            // Matmul: rank-1 operands, broadcasting batch dimensions
+            let (ba, bb) = batches(rng);
+            let sa = if rng.chance(1, 4) { vec![k] } else { [ba, vec![n, k]].concat() };
+            let sb = if rng.chance(1, 4) { vec![k] } else { [bb, vec![k, m]].concat() };
+            let x = b.input(array_type(sa, st));
+            let y = b.input(array_type(sb, st));
+            b.add(vec![x, y], Operation::Matmul);
+        }
+        1 => {
+            // Gemm: transposition flags, batch dimension 1
+            let (ba, bb) = batches(rng);
+            let (ta, tb) = (rng.chance(1, 2), rng.chance(1, 2));
+            let sa = [ba, if ta { vec![k, n] } else { vec![n, k] }].concat();
+            let sb = [bb, if tb { vec![m, k] } else { vec![k, m] }].concat();
+            let x = b.input(array_type(sa, st));
+            let y = b.input(array_type(sb, st));
+            b.add(vec![x.clone(), y.clone()], Operation::Gemm(ta, tb));
+            if rng.chance(1, 3) { b.add(vec![x, y], Operation::Gemm(!ta, tb)); }
+        }
+        _ => {
+            // Dot: scalar / rank-1 / rank-n operands
+            let pre = if rng.chance(1, 2) { vec![] } else { rand_shape(rng, 2) };
+            let ta = if rng.chance(1, 8) { scalar_type(st) } else { array_type([pre, vec![k]].concat(), st) };
+            let tb = match rng.below(4) {
+                0 => scalar_type(st),
+                1 => array_type(vec![k], st),
+                _ => { let pb = if rng.chance(1, 2) { vec![] } else { rand_shape(rng, 2) }; array_type([pb, vec![k, m]].concat(), st) }
+            };
+            let x = b.input(ta);
+            let y = b.input(tb);
+            b.add(vec![x, y], Operation::Dot);
+        }
+    }
+    b.finish(rng)
+}
+
+fn dir_broadcast(rng: &mut Rng) -> Prog {
+    let mut b = Pb::new();
+    let st = *rng.pick(&ALL_ST);
+    let common = rand_shape(rng, 4);
+    let (s0, s1) = (bshape(&common, rng), bshape(&common, rng));
+    let x = b.input(arr_or_scalar(&s0, st));
+    let op = match rng.below(4) { 0 => Operation::Add, 1 => Operation::Subtract, 2 => Operation::Multiply, _ => Operation::MixedMultiply };
+    let st1 = if matches!(op, Operation::MixedMultiply) { BIT } else { st };
+    let y = b.input(arr_or_scalar(&s1, st1));
+    let r = b.add(vec![x.clone(), y.clone()], op);
+    if let Some(r) = r {
+        if rng.chance(1, 2) && r.get_type().unwrap().get_scalar_type() == st {
+            b.add(vec![r, x], Operation::Subtract);
+        }
+    }
+    b.finish(rng)
+}
+
+fn rand_slice(sh: &[u64], rng: &mut Rng) -> Vec<SliceElement> {
+    let k = rng.below(sh.len() as u64 + 1) as usize;
+    let mut sl = vec![];
+    let mut ell = false;
+    for i in 0..k {
+        let d = sh[i] as i64;
+        sl.push(match rng.below(6) {
+            0 => SliceElement::SingleIndex(rng.range(-d, d - 1)),
+            1 => SliceElement::SubArray(None, None, Some(*rng.pick(&[-1i64, -2, -3, 1, 2]))),
+            2 => SliceElement::SubArray(Some(rng.range(-d, d - 1)), None, Some(*rng.pick(&[-1i64, 1, -2]))),
+            3 => SliceElement::SubArray(None, Some(rng.range(-d - 1, d)), Some(*rng.pick(&[-1i64, 1, 2]))),
+            4 => SliceElement::SubArray(Some(rng.range(-d, d - 1)), Some(rng.range(-d - 1, d)), Some(*rng.pick(&[-2i64, -1, 1, 2, 3]))),
+            _ => if !ell { ell = true; SliceElement::Ellipsis } else { SliceElement::SubArray(None, None, None) },
+        });
+    }
+    sl
+}
+
+fn dir_struct(rng: &mut Rng) -> Prog {
+    let mut b = Pb::new();
+    let st = *rng.pick(&ALL_ST);
+    let sh = rand_shape(rng, 4);
+    let r = sh.len() as u64;
+    let x = b.input(array_type(sh.clone(), st));
+    match rng.below(12) {
+        0 => {
+            // Sum over every subset shape: empty axes, all axes, permuted order
+            let mut axes: Vec<u64> = match rng.below(4) { 0 => vec![], 1 => (0..r).collect(), _ => (0..r).filter(|_| rng.chance(1, 2)).collect() };
+            if rng.chance(1, 3) { rng.shuffle(&mut axes); }
+            let s = b.add(vec![x.clone()], Operation::Sum(axes));
+            if let Some(s) = s { if rng.chance(1, 2) { b.add(vec![x, s], Operation::Add); } }
+        }
+        1 => { b.add(vec![x], Operation::CumSum(rng.below(r))); }
+        2 => {
+            let mut p: Vec<u64> = (0..r).collect();
+            rng.shuffle(&mut p);
+            let y = b.add(vec![x], Operation::PermuteAxes(p));
+            if let Some(y) = y { let s2 = y.get_type().unwrap().get_shape(); let sl = rand_slice(&s2, rng); b.add(vec![y], Operation::GetSlice(sl)); }
+        }
+        3 => { let sl = rand_slice(&sh, rng); b.add(vec![x], Operation::GetSlice(sl)); }
+        4 => {
+            let k = 1 + rng.below(r) as usize;
+            let idx: Vec<u64> = (0..k).map(|i| rng.below(sh[i])).collect();
+            b.add(vec![x], Operation::Get(idx));
+        }
+        5 => {
+            // Stack of operands of different (broadcastable) shapes, scalars included
+            let k = 1 + rng.below(4) as usize;
+            let mut deps = vec![x];
+            for _ in 1..k { let s = bshape(&sh, rng); deps.push(b.input(arr_or_scalar(&s, st))); }
+            let outer = if k == 4 && rng.chance(1, 2) { vec![2, 2] } else if k == 2 && rng.chance(1, 3) { vec![1, 2] } else { vec![k as u64] };
+            b.add(deps, Operation::Stack(outer));
+        }
+        6 => {
+            // Concatenate along an axis, other dimensions equal
+            let axis = rng.below(r);
+            let k = 2 + rng.below(2) as usize;
+            let mut deps = vec![x];
+            for _ in 1..k { let mut s = sh.clone(); s[axis as usize] = dim(rng); deps.push(b.input(array_type(s, st))); }
+            b.add(deps, Operation::Concatenate(axis));
+        }
+        7 => {
+            // Reshape between composite types
+            let n: u64 = sh.iter().product();
+            let y = b.input(scalar_type(st));
+            let t = b.add(vec![x.clone(), y.clone()], Operation::CreateTuple).unwrap();
+            let mut cands: Vec<Vec<u64>> = vec![vec![n], vec![1, n], vec![n, 1]];
+            for d in 2..n { if n % d == 0 { cands.push(vec![d, n / d]); } }
+            let s2 = rng.pick(&cands).clone();
+            let nt = match rng.below(3) {
+                0 => tuple_type(vec![array_type(s2, st), array_type(vec![1], st)]),
+                1 => named_tuple_type(vec![("a".into(), array_type(s2, st)), ("b".into(), scalar_type(st))]),
+                _ => tuple_type(vec![array_type(s2, st), scalar_type(st)]),
+            };
+            b.add(vec![t], Operation::Reshape(nt));
+            if n == 1 { b.add(vec![x.clone()], Operation::Reshape(scalar_type(st))); }
+            let v = b.add(vec![y], Operation::Repeat(n)).unwrap();
+            b.add(vec![v.clone()], Operation::Reshape(tuple_type((0..n).map(|_| scalar_type(st)).collect())));
+            b.add(vec![v], Operation::VectorToArray);
+        }
+        8 => {
+            // Gather with a rank-2 index array
+            let axis = rng.below(r);
+            let d = sh[axis as usize];
+            let ish: Vec<u64> = if d >= 2 && rng.chance(1, 2) { vec![1, d.min(2)] } else { vec![1 + rng.below(d)] };
+            let cnt: u64 = ish.iter().product();
+            let ist = *rng.pick(&[UINT8, UINT16, UINT32, UINT64]);
+            let mut idx: Vec<u64> = (0..d).collect();
+            rng.shuffle(&mut idx);
+            idx.truncate(cnt as usize);
+            if rng.chance(1, 10) { idx[0] = d + rng.below(2); }
+            let it = array_type(ish, ist);
+            let iv = Value::from_flattened_array(&idx, ist).unwrap();
+            let i = b.add(vec![], Operation::Constant(it, iv)).unwrap();
+            b.add(vec![x, i], Operation::Gather(axis));
+        }
+        9 => {
+            // ArrayToVector / VectorGet (u32 and u64 index) / Zip / VectorToArray
+            let x2 = x.clone();
+            let v = b.add(vec![x.clone()], Operation::ArrayToVector).unwrap();
+            let ist = if rng.chance(1, 2) { UINT32 } else { UINT64 };
+            let i = b.add(vec![], Operation::Constant(scalar_type(ist), Value::from_scalar(rng.below(sh[0] + 1), ist).unwrap())).unwrap();
+            b.add(vec![v.clone(), i], Operation::VectorGet);
+            let w = b.add(vec![x], Operation::ArrayToVector).unwrap();
+            let z = b.add(vec![v.clone(), w], Operation::Zip);
+            if let Some(z) = z { b.add(vec![z], Operation::Repeat(rng.below(3))); }
+            let nt = b.add(vec![x2.clone(), v.clone()], Operation::CreateNamedTuple(vec!["a".into(), "b".into()]));
+            if let Some(nt) = nt {
+                b.add(vec![nt.clone()], Operation::NamedTupleGet(if rng.chance(1, 2) { "a".into() } else { "b".into() }));
+                b.add(vec![nt], Operation::TupleGet(rng.below(2)));
+            }
+            b.add(vec![v], Operation::VectorToArray);
+        }
+        10 => {
+            // SegmentCumSum, A2B / B2A round trip
+            let bt = array_type(vec![sh[0]], BIT);
+            let bn = b.constant(bt, rng);
+            let ft = arr_or_scalar(&sh[1..], st);
+            let f = b.constant(ft, rng);
+            b.add(vec![x.clone(), bn, f], Operation::SegmentCumSum);
+            if st != BIT {
+                let bits = b.add(vec![x], Operation::A2B).unwrap();
+                let other = *rng.pick(&ALL_ST);
+                b.add(vec![bits.clone()], Operation::B2A(if rng.chance(2, 3) { st } else { other }));
+                b.add(vec![bits], Operation::Sum(vec![r]));
+            }
+        }
+        _ => {
+            // permutation operations, Assert / Print and the randomised index operations
+            let n = sh[0];
+            let p = b.add(vec![], Operation::RandomPermutation(n)).unwrap();
+            b.add(vec![x.clone(), p.clone()], Operation::ApplyPermutation(rng.chance(1, 2)));
+            let ip = b.add(vec![p.clone()], Operation::InversePermutation).unwrap();
+            b.add(vec![ip.clone()], Operation::CuckooToPermutation);
+            b.add(vec![ip], Operation::DecomposeSwitchingMap(n + rng.below(2)));
+            let c = b.add(vec![], Operation::Constant(scalar_type(BIT), Value::from_scalar(if rng.chance(4, 5) { 1 } else { 0 }, BIT).unwrap())).unwrap();
+            let a = b.add(vec![c, x.clone()], Operation::Assert("c09".into()));
+            b.add(vec![a.unwrap_or(x)], Operation::Print("c09".into()));
+            let key = b.add(vec![], Operation::Random(array_type(vec![128], BIT))).unwrap();
+            b.add(vec![key.clone()], Operation::PRF(rng.below(3), array_type(rand_shape(rng, 3), st)));
+            b.add(vec![key], Operation::PermutationFromPRF(rng.below(3), 1 + rng.below(6)));
+        }
+    }
+    b.finish(rng)
+}
+
+// ------------------------------------------------------------------------------- malformed stream
+fn other_st(st: ScalarType, rng: &mut Rng) -> ScalarType {
+    loop { let s = *rng.pick(&ALL_ST); if s != st { return s; } }
+}
+fn perturb_type(t: &Type, rng: &mut Rng) -> Type {
+    let leaf = t.is_array() || t.is_scalar();
+    match rng.below(7) {
+        0 if leaf => { let st = other_st(t.get_scalar_type(), rng); if t.is_array() { array_type(t.get_shape(), st) } else { scalar_type(st) } }
+        1 if t.is_array() => { let mut s = t.get_shape(); let i = rng.below(s.len() as u64) as usize; s[i] += 1 + rng.below(2); array_type(s, t.get_scalar_type()) }
+        2 => tuple_type(vec![t.clone()]),
+        3 if t.is_array() => { let mut s = t.get_shape(); if s.len() > 1 && rng.chance(1, 2) { s.pop(); } else { s.insert(0, 1 + rng.below(2)); } array_type(s, t.get_scalar_type()) }
+        4 => vector_type(rng.below(3), t.clone()),
+        5 if t.is_array() => scalar_type(t.get_scalar_type()),
+        5 if t.is_scalar() => array_type(vec![1 + rng.below(3)], t.get_scalar_type()),
+        _ => named_tuple_type(vec![("f0".into(), t.clone())]),
+    }
+}
+
+/// One perturbed variant of an accepted attempt: a changed argument type, arity, argument order or
+/// operation parameter.
+fn perturb(a: &Attempt, rng: &mut Rng) -> Option<Att> {
+    let mut op = a.op.clone();
+    let mut dts = a.dep_types.clone();
+    let mut const_ty = None;
+    let generic = |dts: &mut Vec<Type>, rng: &mut Rng| {
+        match rng.below(5) {
+            0 if !dts.is_empty() => { dts.pop(); }
+            1 => { let t = if dts.is_empty() || rng.chance(1, 2) { scalar_type(UINT64) } else { rng.pick(dts).clone() }; dts.push(t); }
+            2 if dts.len() >= 2 => { dts.reverse(); }
+            _ if !dts.is_empty() => { let i = rng.below(dts.len() as u64) as usize; dts[i] = perturb_type(&dts[i], rng); }
+            _ => { dts.push(scalar_type(BIT)); }
+        }
+    };
+    let rank = |t: &Type| if t.is_array() { t.get_shape().len() as u64 } else { 0 };
+    if rng.chance(1, 2) {
+        generic(&mut dts, rng);
+    } else {
+        match &a.op {
+            Operation::Input(t) | Operation::Zeros(t) | Operation::Ones(t) | Operation::Random(t) => {
+                let bad = match rng.below(5) {
+                    0 => Type::Array(vec![], BIT),
+                    1 => Type::Array(vec![2, 0], UINT8),
+                    2 => named_tuple_type(vec![("a".into(), t.clone()), ("a".into(), scalar_type(BIT))]),
+                    3 => tuple_type(vec![t.clone(), Type::Array(vec![0], INT32)]),
+                    _ => vector_type(2, Type::Array(vec![1u64 << 40, 1u64 << 40], BIT)),
+                };
+                op = match &a.op { Operation::Input(_) => Operation::Input(bad), Operation::Zeros(_) => Operation::Zeros(bad), Operation::Ones(_) => Operation::Ones(bad), _ => Operation::Random(bad) };
+            }
+            Operation::Truncate(_) => { op = Operation::Truncate(*rng.pick(&[0u128, 1u128 << 127, u128::MAX, (1u128 << 127) - 1])); }
+            Operation::Sum(ax) => {
+                let r = rank(&dts[0]);
+                let mut ax = ax.clone();
+                match rng.below(3) { 0 => ax.push(r + rng.below(2)), 1 => { let d = if ax.is_empty() { 0 } else { ax[0] }; ax.push(d); ax.push(d); } _ => ax.insert(0, u64::MAX) }
+                op = Operation::Sum(ax);
+            }
+            Operation::CumSum(_) => { op = Operation::CumSum(rank(&dts[0]) + rng.below(2)); }
+            Operation::PermuteAxes(p) => {
+                let mut p = p.clone();
+                match rng.below(4) { 0 if !p.is_empty() => { p.pop(); } 1 if !p.is_empty() => { p[0] = p[p.len() - 1]; } 2 => { p.push(p.len() as u64); } _ => { if !p.is_empty() { p[0] = p.len() as u64; } } }
+                op = Operation::PermuteAxes(p);
+            }
+            Operation::Get(ix) => {
+                let sh = dts[0].get_shape();
+                let mut ix = ix.clone();
+                match rng.below(3) { 0 => { ix[0] = sh[0] + rng.below(2); } 1 => { while ix.len() <= sh.len() { ix.push(0); } } _ => { ix.clear(); } }
+                op = Operation::Get(ix);
+            }
+            Operation::GetSlice(sl) => {
+                let sh = dts[0].get_shape();
+                let mut sl = sl.clone();
+                match rng.below(6) {
+                    0 => { sl.push(SliceElement::Ellipsis); sl.insert(0, SliceElement::Ellipsis); }
+                    1 => { sl.insert(0, SliceElement::SubArray(None, None, Some(0))); }
+                    2 => { while sl.len() <= sh.len() { sl.push(SliceElement::SubArray(None, None, None)); } }
+                    3 => { sl.insert(0, SliceElement::SingleIndex(if rng.chance(1, 2) { sh[0] as i64 } else { -(sh[0] as i64) - 1 })); }
+                    4 => { let b = rng.range(0, sh[0] as i64); sl.insert(0, SliceElement::SubArray(Some(b), Some(b), Some(*rng.pick(&[1i64, -1])))); }
+                    _ => { sl.insert(0, SliceElement::SubArray(Some(sh[0] as i64 + rng.range(0, 2)), None, Some(*rng.pick(&[1i64, -1, 2])))); }
+                }
+                op = Operation::GetSlice(sl);
+            }
+            Operation::Reshape(t) => {
+                let nt = match rng.below(5) {
+                    0 if t.is_array() => { let mut s = t.get_shape(); s[0] += 1; array_type(s, t.get_scalar_type()) }
+                    1 if t.is_array() => array_type(t.get_shape(), other_st(t.get_scalar_type(), rng)),
+                    2 if t.is_array() => { let mut s = t.get_shape(); s.push(0); Type::Array(s, t.get_scalar_type()) }
+                    3 => tuple_type(vec![t.clone(), t.clone()]),
+                    _ => named_tuple_type(vec![("x".into(), t.clone())]),
+                };
+                op = Operation::Reshape(nt);
+            }
+            Operation::Stack(o) => {
+                let k: u64 = o.iter().product();
+                op = Operation::Stack(match rng.below(4) { 0 => vec![k + 1], 1 => vec![], 2 => vec![k, 0], _ => vec![1, k, 1] });
+            }
+            Operation::Concatenate(_) => { op = Operation::Concatenate(rank(&dts[0]) + rng.below(2)); }
+            Operation::Constant(t, v) => {
+                // declared type with another element count (same scalar type), or another structure
+                let nt = match rng.below(4) {
+                    0 if t.is_array() => { let mut s = t.get_shape(); s[0] += if t.get_scalar_type() == BIT { 8 } else { 1 }; array_type(s, t.get_scalar_type()) }
+                    1 if t.is_scalar() && t.get_scalar_type() != BIT => array_type(vec![2], t.get_scalar_type()),
+                    2 => tuple_type(vec![t.clone()]),
+                    _ => vector_type(2, t.clone()),
+                };
+                const_ty = Some(t.clone());
+                op = Operation::Constant(nt, v.clone());
+            }
+            Operation::B2A(st) => { op = Operation::B2A(if rng.chance(1, 3) { BIT } else { other_st(*st, rng) }); }
+            Operation::CreateNamedTuple(names) => {
+                let mut n = names.clone();
+                match rng.below(3) { 0 if n.len() > 1 => { n[1] = n[0].clone(); } 1 => { n.pop(); } _ => { n.push("extra".into()); } }
+                op = Operation::CreateNamedTuple(n);
+            }
+            Operation::CreateVector(t) => { op = Operation::CreateVector(perturb_type(t, rng)); }
+            Operation::TupleGet(_) => { let k = match &dts[0] { Type::Tuple(ts) => ts.len() as u64, Type::NamedTuple(ts) => ts.len() as u64, _ => 0 }; op = Operation::TupleGet(k + rng.below(2)); }
+            Operation::NamedTupleGet(_) => { op = Operation::NamedTupleGet(rng.pick(&["zz", "", "F0"]).to_string()); }
+            Operation::VectorGet => { dts[1] = match rng.below(4) { 0 => scalar_type(INT64), 1 => scalar_type(UINT8), 2 => array_type(vec![1], UINT64), _ => scalar_type(UINT128) }; }
+            Operation::Zip => { let i = rng.below(dts.len() as u64) as usize; if let Type::Vector(n, et) = dts[i].clone() { dts[i] = Type::Vector(n + 1, et); } }
+            Operation::Gather(ax) => {
+                let sh = dts[0].get_shape();
+                match rng.below(4) {
+                    0 => { op = Operation::Gather(sh.len() as u64 + rng.below(2)); }
+                    1 => { dts[1] = array_type(dts[1].get_shape(), *rng.pick(&[INT32, UINT128, BIT, INT128, INT8])); }
+                    2 => { dts[1] = array_type(vec![sh[*ax as usize] + 1], UINT64); }
+                    _ => { dts[1] = scalar_type(UINT64); }
+                }
+            }
+            Operation::ApplyPermutation(_) => {
+                let n = dts[0].get_shape()[0];
+                dts[1] = match rng.below(4) { 0 => array_type(vec![n + 1], UINT64), 1 => array_type(vec![n], *rng.pick(&[INT64, UINT128, BIT])), 2 => array_type(vec![n, 1], UINT64), _ => scalar_type(UINT64) };
+            }
+            Operation::InversePermutation => { dts[0] = match rng.below(3) { 0 => array_type(vec![2, 2], UINT64), 1 => array_type(vec![3], *rng.pick(&[INT32, UINT128, BIT, INT128])), _ => scalar_type(UINT32) }; }
+            Operation::SegmentCumSum => {
+                let sh = dts[0].get_shape();
+                match rng.below(4) {
+                    0 => { dts[1] = array_type(vec![sh[0] + 1], BIT); }
+                    1 => { dts[1] = array_type(vec![sh[0]], UINT8); }
+                    2 => { dts[2] = perturb_type(&dts[2], rng); }
+                    _ => { dts[1] = array_type(vec![sh[0], 1], BIT); }
+                }
+            }
+            Operation::PRF(iv, t) => { if rng.chance(1, 2) { dts[0] = rng.pick(&[array_type(vec![127], BIT), array_type(vec![16], UINT8), array_type(vec![1, 128], BIT), scalar_type(UINT128)]).clone(); } else { op = Operation::PRF(*iv, Type::Array(vec![0], t.get_scalar_type())); } }
+            Operation::PermutationFromPRF(iv, _) => { op = Operation::PermutationFromPRF(*iv, *rng.pick(&[0u64, (1 << 30) + 1, 1 << 30, u64::MAX])); }
+            Operation::RandomPermutation(_) => { op = Operation::RandomPermutation(0); }
+            Operation::DecomposeSwitchingMap(_) => { op = Operation::DecomposeSwitchingMap(dts[0].get_shape()[0] - 1); }
+            Operation::Assert(_) => { dts[0] = rng.pick(&[scalar_type(UINT8), array_type(vec![1], BIT), tuple_type(vec![])]).clone(); }
+            _ => generic(&mut dts, rng),
+        }
+    }
+    // every perturbed dependency type must itself be a valid node type
+    if dts.iter().any(|t| !t.is_valid()) {
+        return None;
+    }
+    let a2 = attempt(&op, &dts)?;
+    Some(Att { a: a2, const_ty, origin: "malformed" })
+}
+
+/// hand-written boundary attempts: huge dimensions (overflow paths), degenerate arities
+fn boundary_attempts() -> Vec<(Operation, Vec<Type>)> {
+    let big = array_type(vec![1u64 << 62], BIT);
+    let big2 = array_type(vec![1u64 << 32, 1u64 << 30], UINT8);
+    vec![
+        (Operation::A2B, vec![array_type(vec![1u64 << 60], UINT64)]),
+        (Operation::A2B, vec![big2.clone()]),
+        (Operation::Stack(vec![1u64 << 32, 1u64 << 32]), vec![scalar_type(BIT)]),
+        (Operation::Stack(vec![4]), vec![big.clone(), big.clone(), big.clone(), big.clone()]),
+        (Operation::Concatenate(0), vec![big.clone(), big.clone()]),
+        (Operation::Concatenate(0), vec![array_type(vec![1u64 << 63], BIT), array_type(vec![1u64 << 63], BIT)]),
+        (Operation::Concatenate(0), vec![array_type(vec![(1u64 << 63) + 1], BIT), array_type(vec![1u64 << 63], BIT)]),
+        (Operation::VectorToArray, vec![vector_type(1u64 << 40, array_type(vec![1u64 << 30], BIT))]),
+        (Operation::Reshape(array_type(vec![1u64 << 30, 1u64 << 32], BIT)), vec![big.clone()]),
+        (Operation::Zip, vec![]),
+        (Operation::Zip, vec![vector_type(2, scalar_type(BIT))]),
+        (Operation::Zip, vec![vector_type(0, scalar_type(BIT)), vector_type(0, tuple_type(vec![]))]),
+        (Operation::CreateTuple, vec![]),
+        (Operation::CreateNamedTuple(vec![]), vec![]),
+        (Operation::CreateVector(Type::Array(vec![0], BIT)), vec![]),
+        (Operation::CreateVector(tuple_type(vec![])), vec![]),
+        (Operation::Concatenate(0), vec![]),
+        (Operation::Concatenate(0), vec![array_type(vec![2], BIT)]),
+        (Operation::Stack(vec![1]), vec![]),
+        (Operation::Stack(vec![1]), vec![tuple_type(vec![])]),
+        (Operation::Repeat(0), vec![tuple_type(vec![])]),
+        (Operation::VectorToArray, vec![vector_type(0, scalar_type(BIT))]),
+        (Operation::VectorToArray, vec![vector_type(2, tuple_type(vec![]))]),
+        (Operation::Reshape(tuple_type(vec![])), vec![vector_type(0, scalar_type(INT8))]),
+        (Operation::Reshape(vector_type(0, array_type(vec![7], INT8))), vec![tuple_type(vec![])]),
+        (Operation::Reshape(vector_type(2, scalar_type(INT8))), vec![array_type(vec![2], INT8)]),
+        (Operation::Reshape(scalar_type(INT8)), vec![array_type(vec![1, 1], INT8)]),
+        (Operation::Reshape(array_type(vec![1], INT8)), vec![scalar_type(INT8)]),
+        (Operation::Reshape(scalar_type(UINT8)), vec![scalar_type(INT8)]),
+        (Operation::TupleGet(0), vec![named_tuple_type(vec![("a".into(), scalar_type(BIT))])]),
+        (Operation::Truncate(1u128 << 127), vec![scalar_type(UINT128)]),
+        (Operation::Truncate(1u128 << 127), vec![scalar_type(INT128)]),
+        (Operation::Truncate(3), vec![tuple_type(vec![])]),
+        (Operation::Sum(vec![]), vec![scalar_type(INT8)]),
+        (Operation::Dot, vec![scalar_type(INT8), scalar_type(INT8)]),
+        (Operation::Matmul, vec![scalar_type(INT8), array_type(vec![2], INT8)]),
+        (Operation::Gemm(false, false), vec![array_type(vec![2], INT8), array_type(vec![2, 2], INT8)]),
+        (Operation::MixedMultiply, vec![scalar_type(BIT), scalar_type(BIT)]),
+        (Operation::MixedMultiply, vec![scalar_type(INT8), scalar_type(INT8)]),
+        (Operation::SegmentCumSum, vec![array_type(vec![u64::MAX - 1], BIT), array_type(vec![u64::MAX - 1], BIT), scalar_type(BIT)]),
+    ]
+}
+
+// ------------------------------------------------------------------------------- monitor
+fn short(s: String) -> String {
+    if s.len() > 600 { format!("{}...", &s[..600]) } else { s }
+}
+
+/// The property itself, on the real evaluator: every node value has the node's inferred type and
+/// no evaluate_node call panics.  Returns the node values of the last draw.
+fn monitor(p: &Prog, rng: &mut Rng, out: &mut Out, draws: usize, emit_has_type: bool, em: &mut Emitter) {
+    let nodes = p.g.get_nodes();
+    for _ in 0..draws {
+        let inputs: Vec<Value> = p.input_types.iter().map(|t| gen_value(t, rng)).collect();
+        let mut seed = [0u8; 16];
+        for b in seed.iter_mut() { *b = rng.next() as u8; }
+        let vals = eval_all(&p.g, &inputs, seed);
+        out.stat("monitor_runs");
+        for (n, v) in nodes.iter().zip(vals.iter()) {
+            let op = n.get_operation();
+            let name = op_name(&op);
+            let t = n.get_type().unwrap();
+            let deps = n.get_node_dependencies();
+            let dep_failed = deps.iter().any(|d| !matches!(vals[d.get_id() as usize], Outcome::Ok(_)));
+            if dep_failed { out.stat("monitor_node:skipped_after_runtime_error"); continue; }
+            let describe = || {
+                json!({
+                    "op": short(format!("{:?}", op)),
+                    "dep_types": deps.iter().map(|d| format!("{}", d.get_type().unwrap())).collect::<Vec<_>>(),
+                    "node_type": format!("{}", t),
+                    "dep_values": deps.iter().map(|d| match &vals[d.get_id() as usize] { Outcome::Ok(v) => short(value_coq(v, &d.get_type().unwrap())), _ => "-".into() }).collect::<Vec<_>>(),
+                })
+            };
+            match v {
+                Outcome::Ok(val) => {
+                    let t2 = t.clone();
+                    let val2 = val.clone();
+                    match observe(move || val2.check_type(t2)) {
+                        Outcome::Ok(true) => { out.oracle_ok(); out.stat(&format!("monitor_node:{}:typed", name)); }
+                        other => {
+                            out.violation(&format!("node-value-type-mismatch:{}", name), describe(), format!("check_type(node type) = {} for the value evaluate_node returned", match other { Outcome::Ok(b) => format!("Ok({})", b), Outcome::Err => "Err".into(), Outcome::Panic => "Panic".into() }));
+                        }
+                    }
+                    if emit_has_type && !matches!(op, Operation::Input(_)) {
+                        let lhs = format!("has_type {} {}", value_coq(val, &t), ty(&t));
+                        if lhs.len() < 4000 && em.seen.insert(lhs.clone()) {
+                            out.case("T:has_type_node_value", lhs, "true".into(), json!({"op": name, "type": format!("{}", t)}), !deps.is_empty());
+                        }
+                    }
+                }
+                Outcome::Panic => {
+                    out.violation(&format!("evaluate-node-panics:{}", name), describe(), "SimpleEvaluator::evaluate_node panicked on a node the builder accepted".into());
+                }
+                Outcome::Err => { out.oracle_ok(); out.stat(&format!("monitor_node:{}:runtime_error", name)); }
+            }
+        }
+    }
+}
+
+// ------------------------------------------------------------------------------- driver
+const C09_OPS: [&str; 38] = [
+    "add", "sub", "mul", "mixed", "dot", "matmul", "gemm", "truncate", "sum", "cumsum", "permute",
+    "get", "getslice", "reshape", "nop", "stack", "concat", "constant", "zeros", "ones", "a2b", "b2a",
+    "tuple", "named", "vector", "tupleget", "namedget", "vectorget", "zip", "repeat", "a2v", "v2a",
+    "gather", "invperm", "applyperm", "segcumsum", "random", "prf",
+];
+
+pub fn run(tier: &str, seed: u64, out: &mut Out) {
+    let mut rng = Rng::new(seed ^ 0xC09);
+    let (n_single, n_multi, n_dir, draws, per_att) = match tier {
+        "thorough" => (1900, 500, 2400, 3, 3),
+        "search" => (3000, 1500, 6000, 4, 0),
+        _ => (152, 30, 160, 2, 1),
+    };
+    let cases = tier != "search";
+    let mut em = Emitter { seen: HashSet::new(), accepted: vec![] };
+    let mut progs: Vec<(Prog, &'static str)> = vec![];
+    // one-operation-family programs over every scalar type, ranks up to 4
+    for i in 0..n_single {
+        // every operation family appears in every tier; the scalar type rotates against it
+        let opn = C09_OPS[i % C09_OPS.len()];
+        let st = ALL_ST[(i / C09_OPS.len() + i) % ALL_ST.len()];
+        let cfg = GenCfg { n_inputs: 1 + rng.below(3) as usize, n_ops: 1 + rng.below(3) as usize, scalar_types: vec![st, st, st, BIT], ops: vec![opn], small: rng.chance(1, 2) };
+        progs.push((gen_program(&mut rng, &cfg), "progen"));
+        out.stat(&format!("st:{}", scalar(st)));
+    }
+    // compositions
+    for _ in 0..n_multi {
+        let st = *rng.pick(&ALL_ST);
+        let cfg = GenCfg { n_inputs: 1 + rng.below(3) as usize, n_ops: 3 + rng.below(8) as usize, scalar_types: vec![st, st, BIT, *rng.pick(&ALL_ST)], ops: C09_OPS.to_vec(), small: rng.chance(2, 3) };
+        progs.push((gen_program(&mut rng, &cfg), "progen"));
+    }
+    // directed programs: compatible shapes for the linear-algebra and broadcasting operations
+    for i in 0..n_dir {
+        let p = match i % 4 { 0 => dir_linear(&mut rng), 1 => dir_broadcast(&mut rng), _ => dir_struct(&mut rng) };
+        progs.push((p, "directed"));
+    }
+    for (p, origin) in progs.iter() {
+        if cases {
+            for a in p.attempts.iter() {
+                em.emit(out, &Att { a: a.clone(), const_ty: None, origin });
+            }
+            // progen adds its inputs through Graph::input without logging them
+            if *origin == "progen" {
+                for t in p.input_types.iter() {
+                    em.emit(out, &Att { a: Attempt { op: Operation::Input(t.clone()), dep_types: vec![], result: Outcome::Ok(t.clone()) }, const_ty: None, origin });
+                }
+            }
+        }
+        let emit_ht = cases && rng.chance(1, if tier == "quick" { 6 } else { 3 });
+        monitor(p, &mut rng, out, draws, emit_ht, &mut em);
+    }
+    if cases {
+        // malformed stream
+        let accepted = em.accepted.clone();
+        for a in accepted.iter() {
+            for _ in 0..per_att {
+                if let Some(att) = perturb(a, &mut rng) {
+                    em.emit(out, &att);
+                }
+            }
+        }
+        for (op, dts) in boundary_attempts() {
+            match attempt(&op, &dts) {
+                Some(a) => em.emit(out, &Att { a, const_ty: None, origin: "boundary" }),
+                None => out.stat("boundary_attempt_inputs_rejected"),
+            }
+        }
+    }
+}
